@@ -227,9 +227,16 @@ def run(chk, tier):
         tours += run_typed(chk, wd, binp)
     if not only or "args" in only.split(","):
         tours += run_args(chk, wd, binp)
+    if not only or "array" in only.split(","):
+        # the Array exotic object across its storage transitions (ObjArray.tla; the full embedding / twin matrix is C07's)
+        from checks import c07
+        awd = os.path.join(wd, "objarray")
+        os.makedirs(awd)
+        tours += c07.run_objarray(chk, awd, binp, False, protos=("none",), twins=("s2dlive", "sparse"))
     chk.setcov("traces_validated_against_impl", tours)
     chk.setcov("exhaustive", True)
-    chk.setcov("rule", "ObjArgs.tla: every transition (mapped index of a sloppy arguments object: 729 descriptor shapes, set / delete / freeze / seal, "
+    chk.setcov("rule", "ObjArray.tla (Array exotic object: index / length definitions, ArraySetLength) on arrays in sparse storage and on arrays that "
+               "switch from sparse to dense storage in the middle of the operation (a rotating share of the edges; C07 replays the whole matrix). ObjArgs.tla: every transition (mapped index of a sloppy arguments object: 729 descriptor shapes, set / delete / freeze / seal, "
                "writes through the parameter) replayed on a real arguments object. ObjTyped.tla: every transition (7 keys: valid / out-of-range / -0 / fractional / NaN canonical numeric strings and a non-canonical "
                "one, 162 descriptor shapes, Reflect / Object / syntax issuers, receivers, integrity levels, detach) replayed on a real Uint8Array. "
                "Every transition TLC generates for Obj.tla (cell: 1 object x 1 key x all 729 descriptor shapes x issuers; "
@@ -244,6 +251,9 @@ def replay(path):
     import subprocess
     d = json.load(open(path))
     m = d["replay"]
+    if m.get("module") == "ObjArray":
+        from checks import c07
+        return c07.replay(path)
     if m.get("module") in ("ObjTyped", "ObjArgs"):
         wd = workdir("C04r")
         binp = os.path.join(wd, "jsreplay")
